@@ -305,10 +305,10 @@ func runCheck(repo, out, prop, tier string, timeout, seed int, verbose, keep boo
 	ev := evidence{PropertyID: prop, Tier: tier, Seed: seed, Level: "proof", WallS: time.Since(start).Seconds(), Violations: nViol,
 		Assumptions: assumptions,
 		Coverage: map[string]interface{}{
-			"obligations":           total,
-			"discharged":            discharged + len(knownLines),
-			"discharged_by_solver":  discharged,
+			"obligations":           total - len(knownLines), // obligations claimed as proved (recorded known findings are counted separately, below)
+			"discharged":            discharged,
 			"known_findings":        len(knownLines),
+			"known_finding_obligations_failing": knownLines,
 			"obligation_instances":  len(obls),
 			"checker_cmd":           fmt.Sprintf("bin/govc check -property %s -tier %s (per obligation: z3-new | z3 | cvc5 raced, timeout %ds)", prop, tier, timeout),
 			"trusted_base":          tb,
